@@ -33,7 +33,9 @@ def standin(name, plan, log):
                 exc = interp.call(interp.world.cls(MOD, cname), [K('bad')])
                 exc.label = 'fault-%s-%d' % (name, i)
             else:
-                exc = Obj(None, {'__class_name__': cname},
+                # raised without arguments, like ``raise ValueError``
+                exc = Obj(None, {'__class_name__': cname,
+                                 'args': TupleV([])},
                           label='fault-%s-%d' % (name, i))
             raise AbsRaise(exc)
         return K(None)
